@@ -83,6 +83,20 @@ def chart_text(res=192, song=None, sync=None, events=None, tracks=None, order=No
     return nl.join(lines) + (nl if trailing_nl else "")
 
 
+# Charts parsed by the harness are kept alive for a while (a ring of the most recent ones): state shared between
+# live chart objects (a memo keyed by events of another chart, a class-level buffer) can only show while the
+# earlier chart still exists, and a harness that drops every chart at once would never see it.
+_ALIVE: list = []
+_ALIVE_MAX = 384
+
+
+def keep_alive(chart):
+    _ALIVE.append(chart)
+    if len(_ALIVE) > _ALIVE_MAX:
+        del _ALIVE[: _ALIVE_MAX // 2]
+    return chart
+
+
 class LogCapture(logging.Handler):
     def __init__(self):
         super().__init__(level=logging.DEBUG)
@@ -102,14 +116,14 @@ def parse(text: str, want=None, capture_logs=False):
     from chartparse.chart import Chart
 
     if not capture_logs:
-        return Chart.from_file(io.StringIO(text), want_tracks=want)
+        return keep_alive(Chart.from_file(io.StringIO(text), want_tracks=want))
     h = LogCapture()
     lg = logging.getLogger("chartparse")
     old_level = lg.level
     lg.addHandler(h)
     lg.setLevel(logging.DEBUG)
     try:
-        chart = Chart.from_file(io.StringIO(text), want_tracks=want)
+        chart = keep_alive(Chart.from_file(io.StringIO(text), want_tracks=want))
     finally:
         lg.removeHandler(h)
         lg.setLevel(old_level)
